@@ -16,6 +16,32 @@ def boundary : List Int :=
   [0, 1, -1, 2, -2, 3, 5, 7, 10, -10, 100, 255, 256, 1000, -1000, 65535, 65536, 2147483647, -2147483648,
    2147483646, -2147483647, 1073741824, -1073741824, 46341, -46341]
 
+/-- constants of the program and their neighbours: comparison thresholds are where behaviour changes -/
+def programConstants (core : CoreProg) : List Int :=
+  let args (nd : CNode) : List Arg := match nd with
+    | .arith _ a b _ | .cmp _ a b _ | .land a b _ | .lor a b _ => [a, b]
+    | .gate _ a b v _ => [a, b, v]
+    | .lnot a _ | .proj a _ => [a]
+    | .anyCmp _ _ r o _ | .allCmp _ _ r o _ => r :: o.toList
+    | .beach _ _ k | .bfilter _ _ k _ => [k]
+    | .bgate _ a k _ => [a, k]
+    | _ => []
+  let ks := core.nodes.toList.flatMap (fun nd => (args nd).filterMap (fun a => match a with | .int k => some k.toInt | _ => none))
+  let ks := ks ++ core.nodes.toList.filterMap (fun nd => match nd with | .const _ v => some v.toInt | _ => none)
+  (ks.flatMap (fun k => [k, k + 1, k - 1])).eraseDups
+
+def pickWith (pool : List Int) (s : UInt64) : UInt64 × Int :=
+  let s1 := lcg s
+  let r := (s1 >>> 33).toNat
+  let mode := r % 10
+  let s2 := lcg s1
+  let r2 := (s2 >>> 32).toNat
+  if mode < 4 && !pool.isEmpty then (s2, pool.getD (r2 % pool.length) 0)
+  else if mode < 5 then (s2, boundary.getD (r2 % boundary.length) 0)
+  else if mode < 8 then (s2, (Int.ofNat (r2 % 41)) - 20)
+  else if mode < 9 then (s2, (Int.ofNat (r2 % 2001)) - 1000)
+  else (s2, (BitVec.ofNat 32 r2).toInt)
+
 def pick (s : UInt64) : UInt64 × Int :=
   let s1 := lcg s
   let r := (s1 >>> 33).toNat
@@ -116,12 +142,13 @@ def compareOnce (core : CoreProg) (circ : Circuit) (inputs : List InputBinding) 
     else some { name := o.name, valuation := bind.map (fun (b, v) => (b.name, v.toInt)) ++ contents, expected := es,
                 got := if es == gs then gs' else gs, tick := ticks })
 
-def genVals (seed : UInt64) (n : Nat) : UInt64 × List I32 :=
-  (List.range n).foldl (fun (s, acc) _ => let (s', v) := pick s; (s', acc ++ [i32 v])) (seed, [])
+def genVals (seed : UInt64) (n : Nat) (pool : List Int := []) : UInt64 × List I32 :=
+  (List.range n).foldl (fun (s, acc) _ => let (s', v) := pickWith pool s; (s', acc ++ [i32 v])) (seed, [])
 
 /-- the search: literal values, all-zero, all-one, then `count` seeded valuations; stops at `maxReport` -/
 def searchStateless (core : CoreProg) (circ : Circuit) (inputs : List InputBinding) (obs : List Observation)
     (ren : Sig → Sig) (seed : UInt64) (count ticks maxReport : Nat) (sources : List SourceBinding := []) : Nat × List Mismatch :=
+  let pool := programConstants core
   let genSrcs (s : UInt64) : UInt64 × List (SourceBinding × SigMap) :=
     sources.foldl (fun (st, acc) b => let (st', m) := genContents st; (st', acc ++ [(b, m)])) (s, [])
   let fixed : List (List I32) :=
@@ -131,7 +158,7 @@ def searchStateless (core : CoreProg) (circ : Circuit) (inputs : List InputBindi
     | 0 => (done, acc)
     | f + 1 =>
       if acc.length ≥ maxReport then (done, acc) else
-      let (s1, vs) := genVals s inputs.length
+      let (s1, vs) := genVals s inputs.length pool
       let (s', cs) := genSrcs s1
       go f s' (done + 1) (acc ++ compareOnce core circ inputs obs ren vs ticks cs)
   let first := fixed.foldl (fun acc vs => if acc.length ≥ maxReport then acc else acc ++ compareOnce core circ inputs obs ren vs ticks (genSrcs (seed + 17)).2) []
@@ -180,6 +207,7 @@ are excluded from the comparison (they never settle; see `iterateCheck`). -/
 def searchHistory (core : CoreProg) (circ : Circuit) (inputs : List InputBinding) (obs : List Observation)
     (ren : Sig → Sig) (seed : UInt64) (steps hold : Nat) : Nat × List HistMismatch :=
   let nIn := inputs.length
+  let pool := programConstants core
   let rec go (fuel : Nat) (s : UInt64) (k : Nat) (vals : List I32) (mem : Nat → I32) (outs : Array SigMap)
       (hist : List (List (String × Int))) : Nat × List HistMismatch :=
     match fuel with
@@ -221,9 +249,9 @@ def searchHistory (core : CoreProg) (circ : Circuit) (inputs : List InputBinding
       -- change one input
       let s1 := lcg s
       let which := if nIn == 0 then 0 else (s1 >>> 33).toNat % nIn
-      let (s2, v) := pick s1
+      let (s2, v) := pickWith pool s1
       -- small values make enables / thresholds toggle often
-      let v' : Int := if (s2 >>> 40).toNat % 3 == 0 then v else (v % 7)
+      let v' : Int := if (s2 >>> 40).toNat % 3 != 0 || pool.contains v then v else (v % 7)
       let vals' := vals.set which (i32 v')
       go f s2 (k + 1) vals' memF outs' hist'
   go steps seed 0 (inputs.map (·.lit)) (fun _ => 0) (circ.initA (fun _ => none)) []
